@@ -1,4 +1,4 @@
-"""C03 — Lax and warn modes suppress errors without changing correct output."""
+"""C03 — Lax and warn modes suppress errors without changing correct output (enlarged tag language)."""
 
 from __future__ import annotations
 
@@ -32,7 +32,13 @@ def _ok(r):
     return f"TExpr (XOk {r})"
 
 
-BAD = "TExpr XBad"
+BAD = "TExpr (XBad ESyntax)"
+DEEP = 1500  # nesting depth of the deep pieces: more than CPython's recursion limit
+DEEPBAD = "TExpr (XBad EContextDepth)"
+
+
+def _var(txt, n):
+    return f"(RVar {g_str(txt)} {n})"
 
 
 class Piece:
@@ -50,7 +56,7 @@ def _tag(n):
 
 PIECES = [
     Piece("text", None, None),  # position dependent, see source()/piece_coq()
-    Piece("out", "{{ o }}", lambda d: ["TOutput", _ok(_val(DATAS[d]["o"], 1))]),
+    Piece("out", "{{ o }}", lambda d: ["TOutput", _ok(_var(DATAS[d]["o"], 1))]),
     Piece("out-bad", "{{ o | }}", ["TOutput", BAD]),
     Piece("out-rerr", "{{ 1 | divided_by: 0 }}", ["TOutput", _ok("(RErr EFilterArg)")]),
     Piece("out-strictonly", "{{ d['k']c }}", ["TOutput", f"TExpr (XStrictOnly {_val('S', 1)})"], strict_only=True),
@@ -90,6 +96,78 @@ PIECES = [
     Piece("echo-noexpr", "{% echo %}", [_tag("Necho")]),
     Piece("unknown", "{% nosuch %}", [_tag("Nunknown")]),
     Piece("unknown-expr", "{% nosuch x %}", [_tag("Nunknown"), _ok(_val("", 0))]),
+    # ---- the remaining standard tags
+    Piece("tablerow", "{% tablerow i in l %}", lambda d: [_tag("Ntablerow"), _ok(_val("", len(DATAS[d]["l"])))]),
+    Piece("tablerow-bad", "{% tablerow i l %}", [_tag("Ntablerow"), BAD]),
+    Piece("endtablerow", "{% endtablerow %}", [_tag("Nendtablerow")]),
+    Piece("cycle", "{% cycle 'c' %}", [_tag("Ncycle"), _ok(_val("c", 1))]),
+    Piece("cycle-noexpr", "{% cycle %}", [_tag("Ncycle")]),
+    Piece("cycle-bad", "{% cycle 'g': %}", [_tag("Ncycle"), BAD]),
+    Piece("increment", "{% increment n %}", [_tag("Nincrement"), _ok(_val("", 0))]),
+    Piece("increment-noexpr", "{% increment %}", [_tag("Nincrement")]),
+    Piece("decrement", "{% decrement m %}", [_tag("Ndecrement"), _ok(_val("", 0))]),
+    Piece("decrement-bad", "{% decrement a.b %}", [_tag("Ndecrement"), BAD]),
+    Piece("include", "{% include 'p' %}", [_tag("Ninclude"), _ok(_val("[P]", 1))]),
+    Piece("include-missing", "{% include 'nosuch' %}", [_tag("Ninclude"), _ok("(RErr ENotFound)")]),
+    Piece("include-noexpr", "{% include %}", [_tag("Ninclude")]),
+    Piece("include-bad", "{% include 'p' with %}", [_tag("Ninclude"), BAD]),
+    Piece("render", "{% render 'p' %}", [_tag("Nrender"), _ok(_val("[P]", 1))]),
+    Piece("render-missing", "{% render 'nosuch' %}", [_tag("Nrender"), _ok("(RErr ENotFound)")]),
+    Piece("render-bad", "{% render p.q %}", [_tag("Nrender"), BAD]),
+    Piece("liquid", "{% liquid echo o\nassign x = 1 %}",
+          lambda d: [_tag("Nliquid"), "TLiquid (Some [TTag Necho; " + _ok(_var(DATAS[d]["o"], 1)) + "; TTag Nassign; " + _ok(_val("", 1)) + "])"]),
+    Piece("liquid-open-if", "{% liquid echo o\nif p\necho o %}",
+          lambda d: [_tag("Nliquid"), "TLiquid (Some [TTag Necho; " + _ok(_var(DATAS[d]["o"], 1)) + "; TTag Nif; " + _ok(_var("", int(DATAS[d]["p"])))
+                     + "; TTag Necho; " + _ok(_var(DATAS[d]["o"], 1)) + "])"]),
+    Piece("liquid-bad-line", "{% liquid echo o\nnosuch\necho o %}",
+          lambda d: [_tag("Nliquid"), "TLiquid (Some [TTag Necho; " + _ok(_var(DATAS[d]["o"], 1)) + "; TTag Nunknown; TTag Necho; " + _ok(_var(DATAS[d]["o"], 1)) + "])"]),
+    Piece("liquid-empty", "{% liquid %}", [_tag("Nliquid")]),
+    Piece("liquid-illegal", "{% liquid echo o\n?? %}", [_tag("Nliquid"), "TLiquid None"]),
+    Piece("liquid-blocks", "{% liquid if p\nfor i in l\necho o\nendfor\nendif\nbreak %}",
+          lambda d: [_tag("Nliquid"), "TLiquid (Some [TTag Nif; " + _ok(_var("", int(DATAS[d]["p"]))) + "; TTag Nfor; " + _ok(_val("", len(DATAS[d]["l"])))
+                     + "; TTag Necho; " + _ok(_var(DATAS[d]["o"], 1)) + "; TTag Nendfor; TTag Nendif; TTag Nbreak])"]),
+    Piece("comment-open", "{% comment %}", None),  # the lexer swallows everything up to the matching endcomment: see expand
+    Piece("endcomment", "{% endcomment %}", [_tag("Nendcomment")]),
+    Piece("raw", "{% raw %}r{% endraw %}", ["TContent [114%N]"]),
+    Piece("doc", "{% doc %}d{% enddoc %}", ["TDoc"]),
+    Piece("doc-expr", "{% doc x %}", [_tag("Ndoc"), _ok(_val("", 0))]),
+    Piece("enddoc", "{% enddoc %}", [_tag("Nenddoc")]),
+    Piece("hash", "{% # note %}", [_tag("Nhash"), _ok(_val("", 0))]),
+    Piece("hash-bad", "{% # a\n b %}", [_tag("Nhash"), BAD]),
+    Piece("ifchanged", "{% ifchanged %}", [_tag("Nifchanged")]),
+    Piece("endifchanged", "{% endifchanged %}", [_tag("Nendifchanged")]),
+    # ---- liquid.extra
+    Piece("with", "{% with a: 1 %}", [_tag("Nwith"), _ok(_val("", 1))]),
+    Piece("with-noexpr", "{% with %}", [_tag("Nwith")]),
+    Piece("with-bad", "{% with a %}", [_tag("Nwith"), BAD]),
+    Piece("endwith", "{% endwith %}", [_tag("Nendwith")]),
+    Piece("macro", "{% macro m %}", [_tag("Nmacro"), _ok(_val("", 1))]),
+    Piece("macro-noexpr", "{% macro %}", [_tag("Nmacro")]),
+    Piece("endmacro", "{% endmacro %}", [_tag("Nendmacro")]),
+    Piece("call", "{% call m %}", [_tag("Ncall"), _ok("RMacro")]),
+    Piece("call-unknown", "{% call zz %}", [_tag("Ncall"), _ok(_val("", 0))]),
+    Piece("call-noexpr", "{% call %}", [_tag("Ncall")]),
+    Piece("extends", "{% extends 'base' %}", [_tag("Nextends"), _ok(_val("BASE", 1))]),
+    Piece("extends-missing", "{% extends 'nosuch' %}", [_tag("Nextends"), _ok("(RErr ENotFound)")]),
+    Piece("extends-noexpr", "{% extends %}", [_tag("Nextends")]),
+    Piece("block", "{% block b %}", [_tag("Nblock"), _ok(_val("", 1))]),
+    Piece("block-required", "{% block b required %}", [_tag("Nblock"), _ok("(RErr ERequiredBlock)")]),
+    Piece("block-noexpr", "{% block %}", [_tag("Nblock")]),
+    Piece("endblock", "{% endblock %}", [_tag("Nendblock")]),
+    Piece("endblock-name", "{% endblock b %}", [_tag("Nendblock"), _ok(_val("", 1))]),
+    Piece("endblock-wrong", "{% endblock c %}", [_tag("Nendblock"), "TExpr (XBad EInherit)"]),
+    Piece("translate", "{% translate %}", [_tag("Ntranslate")]),
+    Piece("translate-bad", "{% translate x %}", [_tag("Ntranslate"), BAD]),
+    Piece("plural", "{% plural %}", [_tag("Nplural")]),
+    Piece("endtranslate", "{% endtranslate %}", [_tag("Nendtranslate")]),
+    Piece("noname", "{% %}", [_tag("Nnoname")]),
+    # ---- when lists with a rejected later alternative; expressions nested deeper than the Python stack
+    Piece("when-tail-strictonly", "{% when 2, w. %}", lambda d: [_tag("Nwhen"), f"TExpr (XStrictOnly {_val('', int(DATAS[d]['w'] == 2) + 1)})"], strict_only=True),
+    Piece("when-tail-bad", "{% when 1, | %}", lambda d: [_tag("Nwhen"), f"TExpr (XTailBad {_val('', int(DATAS[d]['w'] == 1))})"]),
+    Piece("out-deep", "{{ o" + "[" * DEEP + " }}", ["TOutput", DEEPBAD]),
+    Piece("if-deep", "{% if o " + "and o " * DEEP + "%}", [_tag("Nif"), DEEPBAD]),
+    Piece("elsif-deep", "{% elsif o " + "and o " * DEEP + "%}", [_tag("Nelsif"), DEEPBAD]),
+    Piece("for-deep", "{% for i in " + "(1.." * DEEP + "2" + ")" * DEEP + " %}", [_tag("Nfor"), DEEPBAD]),
 ]
 IDX = {p.name: i for i, p in enumerate(PIECES)}
 
@@ -99,6 +177,20 @@ CORE20 = ["text", "out", "out-bad", "out-rerr", "if", "if-bad", "elsif", "elsif-
 CORE12 = ["text", "out-rerr", "if", "if-noexpr", "elsif", "elsif-bad", "else", "endif", "for", "endfor", "break", "out-strictonly"]
 CORE9 = ["text", "out-rerr", "if", "elsif-noexpr", "else", "endif", "for", "endfor", "continue"]
 CORE7 = ["text", "if", "if-bad", "else", "endif", "case", "when"]
+CORE8 = ["text", "out-rerr", "if", "elsif-bad", "else", "endif", "for", "endfor"]
+# the remaining standard tags
+STD16 = ["text", "out-rerr", "tablerow", "endtablerow", "cycle", "increment", "include-missing", "liquid-open-if", "liquid-blocks",
+         "comment-open", "endcomment", "doc-expr", "enddoc", "ifchanged", "endifchanged", "break"]
+STD25 = STD16 + ["decrement", "render", "liquid", "raw", "doc", "hash", "for", "endfor", "assign-noexpr"]
+# liquid.extra
+EXT16 = ["text", "out", "macro", "endmacro", "call", "include", "block", "block-required", "endblock", "endblock-wrong", "extends",
+         "extends-missing", "translate", "endtranslate", "with", "endwith"]
+EXT22 = EXT16 + ["plural", "noname", "for", "endfor", "break", "out-rerr"]
+MIX8 = ["text", "macro", "endmacro", "call", "extends", "block", "endblock", "increment"]
+MIX12 = MIX8 + ["comment-open", "endcomment", "ifchanged", "endifchanged"]
+DEEP9 = ["text", "if", "elsif", "else", "endif", "out-deep", "if-deep", "elsif-deep", "for-deep"]
+WHEN8 = ["text", "case", "when", "when-tail-strictonly", "when-tail-bad", "else", "endcase", "out-rerr"]
+WHEN6 = ["text", "case", "when", "when-tail-strictonly", "when-tail-bad", "endcase"]
 
 
 def source(ps) -> str:
@@ -110,22 +202,32 @@ def preamble() -> str:
     lines = ["From Coq Require Import String Ascii Uint63.", "Local Open Scope string_scope. Local Open Scope list_scope.",
              "Definition piece (d pos p : nat) : list tok :=", "  match p with", "  | 0 => [TContent [N.of_nat (97 + pos)]]"]
     for i, p in enumerate(PIECES):
-        if i == 0:
+        if i == 0 or p._toks is None:
             continue
         t0, t1 = "[" + "; ".join(p.toks(0)) + "]", "[" + "; ".join(p.toks(1)) + "]"
         lines.append(f"  | {i} => " + (t0 if t0 == t1 else f"match d with 0 => {t0} | _ => {t1} end"))
+    co, ec = IDX["comment-open"], IDX["endcomment"]
     lines += ["  | _ => []", "  end.",
-              "Fixpoint expand (d pos : nat) (ps : list nat) : list tok :=",
-              "  match ps with [] => [] | p :: r => piece d pos p ++ expand d (S pos) r end.",
-              "(* the lexer joins adjacent text *)",
-              "Fixpoint merge (ts : list tok) : list tok :=",
-              "  match ts with",
-              "  | TContent a :: r => match merge r with TContent b :: r' => TContent (a ++ b) :: r' | r' => TContent a :: r' end",
-              "  | t :: r => t :: merge r",
-              "  | [] => []",
+              "(* adjacent text pieces are one CONTENT token; the lexer swallows everything between comment and the matching endcomment *)",
+              "Fixpoint expand (d pos : nat) (pend : str) (cdepth : nat) (ps : list nat) : list tok :=",
+              "  let flush := match pend with [] => [] | _ => [TContent pend] end in",
+              "  match ps with",
+              "  | [] => match cdepth with O => flush | _ => [] end",
+              "  | p :: r =>",
+              "      match cdepth with",
+              "      | S k =>",
+              f"          if Nat.eqb p {co} then expand d (S pos) [] (S (S k)) r",
+              f"          else if Nat.eqb p {ec} then",
+              "            match k with O => TComment :: TTag Nendcomment :: expand d (S pos) [] 0 r | _ => expand d (S pos) [] k r end",
+              "          else expand d (S pos) [] cdepth r",
+              "      | O =>",
+              "          if Nat.eqb p 0 then expand d (S pos) (pend ++ [N.of_nat (97 + pos)]) 0 r",
+              f"          else if Nat.eqb p {co} then flush ++ TTag Ncomment :: expand d (S pos) [] 1 r",
+              "          else flush ++ piece d pos p ++ expand d (S pos) [] 0 r",
+              "      end",
               "  end.",
               "Definition mk (m : mode) (lim d : nat) (ps : list nat) : rcase :=",
-              "  {| rc_mode := m; rc_limit := lim; rc_toks := merge (expand d 0 ps) |}.",
+              "  {| rc_mode := m; rc_limit := lim; rc_toks := expand d 0 [] 0 ps |}.",
               "Definition enc_exn (e : exn) : string :=",
               "  match e with " + " | ".join(f'{e} => "{e}"' for e in EXNS) + " end.",
               "Fixpoint rep_w (n : nat) : string := match n with O => EmptyString | S n' => String \"w\"%char (rep_w n') end.",
@@ -184,12 +286,15 @@ _ENVS = {}
 def _env(mode: str, limit: int):
     key = (mode, limit)
     if key not in _ENVS:
-        from liquid import Environment, Mode
+        from liquid import DictLoader, Environment, Mode
+        from liquid.extra import add_tags_and_filters
 
         class Env(Environment):
             block_nesting_limit = limit
 
-        _ENVS[key] = Env(tolerance={"Strict": Mode.STRICT, "Warn": Mode.WARN, "Lax": Mode.LAX}[mode])
+        env = Env(tolerance={"Strict": Mode.STRICT, "Warn": Mode.WARN, "Lax": Mode.LAX}[mode], loader=DictLoader({"p": "[P]", "base": "BASE"}))
+        add_tags_and_filters(env)
+        _ENVS[key] = env
     return _ENVS[key]
 
 
@@ -255,17 +360,21 @@ def oracle(ps, obs):
 
 
 # ----------------------------------------------------------------------------------------------- generation
-GROUP = 2500  # sources per group (one Coq string comparison each)
+GROUP = 4200  # sources per group (one Coq string comparison each)
 
 
 def gen_groups(ck: Check):
     """Groups of (limit, layer label, Gallina term for the list of piece sequences, the sequences)."""
-    allp = list(range(len(PIECES)))
+    deep = {i for i, p in enumerate(PIECES) if p.name.endswith("-deep")}  # a stack overflow costs ~50 ms: few of those
+    allp = [i for i in range(len(PIECES)) if i not in deep]
     if ck.quick:
-        layers = [(allp, 2, 30), (CORE20, 3, 30), (CORE12, 4, 30), (CORE7, 4, 30), (CORE9, 3, 1)]
-        nrand = 1500
+        layers = [(allp, 2, 30), (CORE20, 3, 30), (CORE12, 3, 30), (CORE7, 4, 30), (CORE9, 3, 1),
+                  (STD16, 3, 30), (EXT16, 3, 30), (MIX8, 3, 30), (STD16, 2, 1), (DEEP9, 2, 30), (WHEN6, 4, 30)]
+        nrand = 1200
     else:
-        layers = [(allp, 3, 30), (CORE20, 4, 30), (CORE12, 5, 30), (CORE7, 6, 30), (CORE12, 4, 1), (CORE9, 5, 1)]
+        layers = [(allp, 2, 30), (CORE20, 4, 30), (CORE12, 4, 30), (CORE7, 5, 30), (CORE12, 4, 1), (CORE9, 5, 1),
+                  (STD25, 3, 30), (STD16, 4, 30), (EXT22, 3, 30), (EXT16, 4, 30), (MIX12, 4, 30), (MIX8, 5, 30), (STD16, 3, 1), (EXT16, 3, 1),
+                  (DEEP9, 3, 30), (WHEN8, 5, 30), (CORE8, 5, 30)]
         nrand = 20000
     for alpha, n, lim in layers:
         ids = [a if isinstance(a, int) else IDX[a] for a in alpha]
@@ -279,7 +388,7 @@ def gen_groups(ck: Check):
                 term = f"map (app [{'; '.join(map(str, pre))}]) (seqs {g_ids} {k - j})" if j else f"seqs {g_ids} {k}"
                 yield lim, f"exhaustive.alphabet{len(ids)}.len{k}.limit{lim}", term, seqs
     rng = ck.rng
-    weights = [6 if p.name in ("text", "if", "endif", "for", "endfor", "else", "elsif") else 1 for p in PIECES]
+    weights = [6 if PIECES[i].name in ("text", "if", "endif", "for", "endfor", "else", "elsif") else 1 for i in allp]
     for lim in (30, 1, 2):
         seqs = [tuple(rng.choices(allp, weights=weights, k=rng.randrange(5, 11))) for _ in range(nrand // 3)]
         for lo in range(0, len(seqs), GROUP):
@@ -347,11 +456,13 @@ def wellformed(rng, depth):
 
 def run(ck: Check) -> None:
     ck.rule = (
-        "Sources are concatenations of pieces (one tag, output statement or run of text each; 41 pieces: well-formed and malformed "
-        "output statements, if/unless/elsif/else, for/break/continue, case/when, capture, assign, echo, unknown tags, strict-only "
-        "rejected paths, render-time errors). Exhaustive: every sequence of <=2 (quick) / <=3 (thorough) pieces over all 41, "
-        "<=3/4 over a core of 20, <=4/5 over a core of 12, <=4/6 over a core of 7, and <=3 (quick) / <=4, <=5 (thorough) over cores of 9 / 12, 9 with block_nesting_limit=1; "
-        "plus seeded random sequences of 5..10 pieces with limits 30/1/2 and seeded random well-formed templates (depth<=3), half of them with one piece replaced, dropped or inserted, limits 30/2. Each source runs under STRICT, WARN and LAX on two data sets "
+        f"Sources are concatenations of pieces (one tag, output statement or run of text each; {len(PIECES)} pieces: every standard tag and the "
+        "liquid.extra tags, well-formed and malformed: bad / missing / strict-only-rejected expressions, when lists with a rejected later "
+        "alternative, unknown and stray tags, unclosed comment / doc / liquid blocks, missing partials and parents, required and misnamed blocks, "
+        "render-time errors, expressions nested deeper than the Python stack). Exhaustive: every pair over all pieces; triples / quadruples / "
+        "quintuples over cores of 6-25 pieces (core constructs, the remaining standard tags, liquid.extra, when lists, deep expressions), some "
+        "with block_nesting_limit 1; plus seeded random sequences of 5..10 pieces with limits 30/1/2 and seeded random well-formed templates "
+        "(depth<=3), half of them with one piece replaced, dropped or inserted. Each source runs under STRICT, WARN and LAX on two data sets "
         "through from_string + render and render_async, warnings recorded. Oracle on the observations alone; every sync observation is "
         "compared inside Coq with Recover.run_recover on the hand-tokenised pieces. Non-trivial = some mode suppressed or raised an error."
     )
@@ -365,8 +476,9 @@ def run(ck: Check) -> None:
         "always-parses / strict-only-rejected / never-parses plus a value or a render-time error on the data), warnings module",
     ]
     ck.assumptions = [
-        "tags outside the modelled set (tablerow, ifchanged, cycle, increment, include, render, liquid, comment, raw, extra tags) are covered "
-        "only through the generic Tag.get_node path they share with the modelled ones",
+        "partials are static text ('p', 'base'); include/render arguments, for/with binding, block inheritance beyond a block-less parent, "
+        "tablerow cols/limit/offset, translation catalogs and the snippet tag are outside the model",
+        "macro calls nested deeper than 8 levels render nothing in the model (never reached by the generators)",
         "expression text is never one of the words that stop the junk skipping after a case tag",
     ]
     ck.proof()
@@ -380,7 +492,7 @@ def run(ck: Check) -> None:
     t1 = time.time()
     pre = preamble()
     coq_cases, coq_exp = [], []
-    reported = 0
+    per_kind: dict = {}
     pos = 0
     starts = []
     for lim, layer, term, seqs in groups:
@@ -393,12 +505,13 @@ def run(ck: Check) -> None:
             ck.note_case((ps, lim), nontrivial=any(o[0] != "out" or o[2] for o in obs.values()))
             for kind, detail in oracle(ps, obs):
                 ck.count("oracle." + kind)
-                if reported < 12:
-                    reported += 1
+                per_kind[kind] = per_kind.get(kind, 0) + 1
+                if per_kind[kind] <= 3:  # a few failing inputs of every kind of failure
                     names = [PIECES[p].name for p in ps]
+                    src = source(ps)
                     ck.violation("impl-violation", f"{kind}:{'+'.join(names)}:limit{lim}",
-                                 f"{kind} on {source(ps)!r} (block_nesting_limit={lim}): {detail}",
-                                 {"type": "modes", "pieces": list(ps), "limit": lim, "template": source(ps), "kind": kind, "detail": detail})
+                                 f"{kind} on {src[:300]!r}{'...' if len(src) > 300 else ''} (block_nesting_limit={lim}): {detail}",
+                                 {"type": "modes", "pieces": list(ps), "limit": lim, "template": src, "kind": kind, "detail": detail})
             for m in MODES:
                 for d in (0, 1):
                     o = obs[(m, d, False)]
@@ -412,17 +525,17 @@ def run(ck: Check) -> None:
     k = len(flat) // 3
     ck.sample({"template": source(flat[k][0]), "limit": flat[k][1],
                "observed": {f"{m}/{d}": results[k][(m, d, False)] for m in MODES for d in (0, 1)}})
-    mm = ck.coq_mismatches("recover", IMPORTS, "run_group_hash", "Uint63.eqb", "group", "int", coq_cases, coq_exp, chunk=6, preamble=pre)
+    mm = ck.coq_mismatches("recover", IMPORTS, "run_group_hash", "Uint63.eqb", "group", "int", coq_cases, coq_exp, chunk=max(1, -(-len(coq_cases) // (14 if ck.quick else 64))), preamble=pre)
     shown = 0
     for gi in mm[:2]:  # locate the differing sources of the first differing groups only
         lim, layer, term, seqs = groups[gi]
         # find the sources of the group on which model and engine differ
         model = ck.coq_eval(IMPORTS, [f"map (run_seq {lim}) ({term})"], preamble=pre)[0]
-        got = re.findall(r'"([^"]*)"', model)
+        got = [x.replace('""', '"') for x in re.findall(r'"((?:[^"]|"")*)"', model)]
         for i, ps in enumerate(seqs):
             want = enc_source(results[starts[gi] + i])
             have = got[i] if i < len(got) else "<missing>"
-            if want != have and shown < 4:
+            if re.sub(r"\s+", " ", want) != re.sub(r"\s+", " ", have) and shown < 4:  # coq_eval prints newlines as spaces
                 shown += 1
                 ck.violation("correspondence", "c03-recover-correspondence",
                              f"model Recover.run_recover and the engine disagree on {source(ps)!r} (limit={lim}; Strict,Warn,Lax x data 0,1): "
